@@ -21,7 +21,7 @@ def outside(z3, qz, vals):
     return z3.And(*[qz != z3.RealVal(f"{v.numerator}/{v.denominator}") for v in vals])
 
 
-def check_paths(I, paths, types, skip, stats, tag, out_cands, base=None):
+def check_paths(I, paths, types, skip, stats, tag, out_cands, base=None, k=0, observable=None):
     """for every path and typed variable: can the value lie outside the type?  -> number of queries"""
     import z3
     nq = 0
@@ -32,7 +32,13 @@ def check_paths(I, paths, types, skip, stats, tag, out_cands, base=None):
                 continue
             q = p.env[v]
             if I.unset_suffix and any(sy.endswith(I.unset_suffix) and sy[:-len(I.unset_suffix)] in I.vars for sy in q.symbols_deep()):
-                continue  # the variable still holds (a function of) an undefined initial value: not a value it "takes"
+                # the variable still holds (a function of) an undefined initial value.  Before the first iteration this is
+                # not a value the type speaks about (the listed beginning value covers n = 0); for an auxiliary variable it is
+                # unobservable (no goal names it, every read follows its assignment under the same guard).  A variable of the
+                # source program that still holds it after an iteration (loop never entered, condition never true) does
+                # "hold" that value: powers of it are reduced through the type.
+                if k == 0 or observable is None or v not in observable:
+                    continue
             if q.is_const():
                 if q.cval() not in vals:
                     out_cands.append({"var": v, "value": str(q.cval()), "pc": list(p.pc), "model": None, "path": p})
@@ -51,13 +57,13 @@ def check_paths(I, paths, types, skip, stats, tag, out_cands, base=None):
     return nq
 
 
-def bmc(norm, types, skip, K, stats, tag, param_vals=None):
+def bmc(norm, types, skip, K, stats, tag, param_vals=None, observable=None):
     """exact exploration from the initial block: first (k, var, value) outside its type, or None"""
     import z3
     try:
         for k, I, paths in kstep(norm, K, param_vals=param_vals, max_paths=30000):
             cands = []
-            check_paths(I, paths, types, skip, stats, f"{tag}:bmc:k={k}", cands)
+            check_paths(I, paths, types, skip, stats, f"{tag}:bmc:k={k}", cands, k=k, observable=observable)
             for c in cands:
                 if c.get("unknown"):
                     continue
@@ -101,7 +107,8 @@ def job(item):
         out["typed_vars"] += len(check)
         skip = declared
         # Q1 + Q3 (bounded, from the initial block): also guards Q2 against vacuity
-        hit = bmc(norm, check, skip, item["K"], out["stats"], tag)
+        observable = set(src.assigned_vars())
+        hit = bmc(norm, check, skip, item["K"], out["stats"], tag, observable=observable)
         if hit and "error" in hit:
             out["records"].append({"kind": "inconclusive", "tag": tag + ":bmc", "why": hit["error"][:150]})
             hit = None
@@ -113,23 +120,31 @@ def job(item):
             out["checked"] += 1
             # self-mutant: a type with one value removed must be refuted by the step or the initial check
             if not out["mutants"]:
+                # (a type Polar infers may legitimately be larger than the reachable set, so a particular removal need not
+                # be refutable: candidates are tried until one is; the run as a whole must refute some -- see main)
+                tried = 0
                 for v, vals in check.items():
-                    if len(vals) >= 2:
-                        mt = dict(check)
-                        mt[v] = vals[1:]
+                    if len(vals) < 2 or tried >= 6:
+                        continue
+                    for drop in range(min(len(vals), 3)):
+                        tried += 1
+                        mtv = vals[:drop] + vals[drop + 1:]
                         mc_ = []
-                        check_paths(I, paths, {v: mt[v]}, skip, None, tag + ":mutant", mc_, base=[c for c in I.solver.assertions()])
-                        b2 = bmc(norm, {v: mt[v]}, skip, 3, None, tag + ":mutant")
-                        out["mutants"] += 1
-                        if not mc_ and not b2:
-                            out["records"].append({"kind": "harness", "tag": tag, "why": f"self-mutant (type of {v} without {vals[0]}) not refuted"})
+                        check_paths(I, paths, {v: mtv}, skip, None, tag + ":mutant", mc_, base=[c for c in I.solver.assertions()])
+                        b2 = None if mc_ else bmc(norm, {v: mtv}, skip, 3, None, tag + ":mutant")
+                        if mc_ or b2:
+                            out["mutants"] += 1
+                            break
+                    if out["mutants"]:
                         break
+                if tried and not out["mutants"]:
+                    out["mutants_unrefuted"] = out.get("mutants_unrefuted", 0) + 1
         except (Unsupported, ZeroDivisionError) as e:
             out["records"].append({"kind": "inconclusive", "tag": tag + ":step", "why": f"oracle: {e}"[:150]})
         if hit:
             vals = mc.sym_values(hit["model"], set(hit["model"])) if hit["model"] else {}
             # replay: exact re-execution at the model's parameter values
-            again = bmc(norm, check, skip, hit["k"], None, tag, param_vals=vals) if vals else hit
+            again = bmc(norm, check, skip, hit["k"], None, tag, param_vals=vals, observable=observable) if vals else hit
             if again and "error" not in again:
                 t = check[hit["var"]]
                 out["records"].append({"kind": "violation", "key": f"{pid}|fp={fp}|{hit['var']}", "tag": tag,
@@ -155,7 +170,7 @@ def job(item):
             srcvars = set(src.assigned_vars())
             st = {v: vals for v, vals in check.items() if v in srcvars}
             if st:
-                hit2 = bmc(src, st, skip, min(item["K"], 4), out["stats"], tag + ":source")
+                hit2 = bmc(src, st, skip, min(item["K"], 4), out["stats"], tag + ":source", observable=observable)
                 if hit2 and "error" not in hit2:
                     out["records"].append({"kind": "violation", "key": f"{pid}|fp={fp}|{hit2['var']}|source", "tag": tag,
                                            "what": f"source semantics: {hit2['var']} : Finite({', '.join(map(str, st[hit2['var']]))}) but holds {hit2['value']} after {hit2['k']} iteration(s)",
@@ -202,6 +217,8 @@ def main():
                 run.inconc(f"{r['tag']}: {r['why']}")
         if val["settings"] and len(run.samples) < 6:
             run.sample({"program": it["id"], "text": it["text"][:300], "typed_variables_checked": val["typed_vars"]})
+    if programs and not muts:
+        run.harness_error("no self-mutant (a type with one value removed) was refuted in the whole run")
     run.functions = ["type_inference.finite_fixed_point_typer:FiniteFixedPointTyper.infer_types/_progress/_initialize_state/_extract_types",
                      "program.transformer.type_inferer:TypeInferer.execute", "program.assignment.*:get_support", "program.condition.*:is_implied_by_loop_guard"]
     run.bounds = {"family": "corpus + repo benchmarks + generated family + symbolic templates", "type_fp_iterations": fps,
